@@ -42,7 +42,9 @@ MANIFEST = {
                      "session stays checked. ContractMaxSize is modelled on the padded length (identical to the text for sizes that are "
                      "multiples of 8, which is all the drivers use).", design_ref="4/C36"),
     "C30": dict(category="model_checking",
-                technique="every storage access of every executed instruction is recorded by a recording InterpreterStorage and attached to the "
+                technique="(thorough tier also: TLC model-checks FuelVM_Calls_MC — all programs over a call/asset alphabet with a deployed non-input "
+                          "contract — for ContextsAreInputs, TouchesInputsOnly, NonInputPanics, PanicChangesNothing, BalReadsInputs) "
+                          "every storage access of every executed instruction is recorded by a recording InterpreterStorage and attached to the "
                           "Step event; the FuelVM trace specification (TLC) requires, for every step, that each access to the code / state / "
                           "assets tables concerns an input contract and that the id at $fp is an input contract; the instruction semantics admit "
                           "only ContractNotInInputs for a non-input id; predicates run over a recording predicate storage",
@@ -353,5 +355,10 @@ def run(pid, tier):
         if pid == "C36":
             _run_c36(chk, tier)
         else:
+            if tier == "thorough":
+                # design level: FuelVM_Calls_MC (all programs over a call / asset alphabet with a deployed NON-input contract) checks
+                # ContextsAreInputs, TouchesInputsOnly, NonInputPanics, PanicChangesNothing, BalReadsInputs
+                import mccalls
+                mccalls.hook(chk, tier)
             _run_c30(chk, tier)
     return vlib.run_check(body, pid, MANIFEST[pid]["category"], tier)
